@@ -404,8 +404,8 @@ class DeviceSim(object):
             # device has not closed: adbd tears the socket down and answers CLSE
             if s.data and s.data[0][1].cmd == A_WRTE and not s.unacked and s.open_acked and s.data[0][2] <= self.host_count and self.tape.draw(2) == 1:
                 # the service's next WRTE was already on its way when the host's CLSE arrived: it crosses the CLSE on the wire
-                seq, pkt, _ = s.data.popleft()
-                s.acks.append((seq, pkt))
+                e_ = s.data.popleft()
+                s.acks.append((e_[0], e_[1]))
                 s.crossing_wrte = True
             s.data.clear()
             arg0 = 0 if self.cfg.get("zero_clse_reply") else s.rid
@@ -432,11 +432,15 @@ class DeviceSim(object):
         chunks = services.get(dest)
         if chunks is None:
             chunks = self.cfg.get("default_service") or []
-        for c in chunks:
-            if len(c) == 0:
+        pace = (self.cfg.get("pace") or {}).get(dest) or []
+        t = max(self.now(), s.ready_at)
+        for k, c in enumerate(chunks):
+            if len(c) == 0 and not self.cfg.get("allow_empty_wrte"):
                 raise SimError("empty WRTE in script")
-            s.data.append([self._next_seq(), Packet(A_WRTE, s.rid, s.lid, bytes(c)), 0])
-        s.data.append([self._next_seq(), Packet(A_CLSE, s.rid, s.lid, b""), 0])
+            t += pace[k % len(pace)] if pace else 0
+            s.data.append([self._next_seq(), Packet(A_WRTE, s.rid, s.lid, bytes(c)), 0, t if pace else 0])
+        t += pace[len(chunks) % len(pace)] if pace else 0
+        s.data.append([self._next_seq(), Packet(A_CLSE, s.rid, s.lid, b""), 0, t if pace else 0])
         s.dev_close_queued = True
         if self.cfg.get("dup_clse"):
             s.data.append([self._next_seq(), Packet(A_CLSE, s.rid, s.lid, b""), 0])
@@ -470,7 +474,9 @@ class DeviceSim(object):
             if s.acks:
                 cands.append((s.acks[0][0], "ack", s))
             if s.data and s.open_acked:
-                seq, pkt, nb = s.data[0]
+                seq, pkt, nb = s.data[0][:3]
+                if len(s.data[0]) > 3 and s.data[0][3] > now:
+                    continue            # the service has not produced this output yet
                 if nb > self.host_count and not ignore_lag:
                     continue
                 if s.unacked and (pkt.cmd == A_WRTE or (pkt.cmd == A_CLSE and not s.eager_clse)):
@@ -506,7 +512,7 @@ class DeviceSim(object):
             if pkt.cmd == A_CLSE:
                 s.dev_closed = True
             return self._legacy_zero(pkt, s, is_open_ack), s
-        _, pkt, _ = s.data.popleft()
+        pkt = s.data.popleft()[1]
         if pkt.cmd == A_WRTE:
             s.unacked = True
         elif pkt.cmd == A_CLSE:
@@ -525,9 +531,24 @@ class DeviceSim(object):
             return Packet(pkt.cmd, pkt.arg0, 0, pkt.data)
         return pkt
 
+    def next_ready_in(self):
+        """Seconds until the device will have something to send although it is silent now (slow service start, paced output), or None."""
+        now = self.now()
+        gaps = []
+        for s in self.streams:
+            if s.ready_at > now and (s.acks or s.data):
+                gaps.append(s.ready_at - now)
+            elif s.data and s.open_acked and len(s.data[0]) > 3 and s.data[0][3] > now:
+                pkt = s.data[0][1]
+                if not (s.unacked and (pkt.cmd == A_WRTE or (pkt.cmd == A_CLSE and not s.eager_clse))):
+                    gaps.append(s.data[0][3] - now)
+        return min(gaps) if gaps else None
+
     def delivered(self, pkt, s):
         """The transport handed the last byte of `pkt` to the host."""
         self.device_log.append((self.now(), pkt, s.rid if s is not None else None))
+        if s is not None and pkt.cmd == A_CLSE and getattr(s, "t_dev_clse", None) is None:
+            s.t_dev_clse = self.now()       # when the device's CLSE was completely handed to the host
         if s is not None and pkt.cmd == A_WRTE:
             s.written.append(pkt.data)
             s.written_t.append(self.now())
